@@ -217,8 +217,9 @@ example :
 /-! ### the two endpoints and the network between them, as one system (`NxProofs/Sys.lean`)
 
 `Sys` = a sending `Conn`, a receiving `Conn`, and `net`: everything the sender ever handed to its transport for the substream.
-A step is an application `send` at the sender or the delivery of *any* element of `net` to the receiver's `process_reliable`
-(any order, any number of times; never = loss). `Good` = the coupling `Cpl` with an L2 channel state + the channel invariants.
+A step is an application `send` at the sender — as one step, or fragment by fragment (`begin`, then one `frag` per turn of its
+loop) with keep-alive pings of the sender's timer task (`ping`, substream 0) and deliveries falling in between — or the delivery
+of *any* element of `net` to the receiver's `process_reliable` (any order, any number of times; never = loss). `Good` = the coupling `Cpl` with an L2 channel state + the channel invariants.
 Hypotheses of a run (`Sys.runOk`, decidable, checked step by step): a `send` is refused at once (closed connection, invalid
 substream) or runs to its end on a live link — an exception out of the transport in the middle of a message is excluded
 (it leaves a hole in the id sequence; the application saw the exception); a delivered copy is within half the id space of
@@ -249,15 +250,16 @@ theorem C01_system_safety (env : Env) (hcomp : ∀ b, env.compress b = b) (hdec 
   good_safe (sys_refines env hcomp hdec sub ci size hsz start ops s ch h0 hok).1
 
 open Nx.L1 Nx.Prudp in
-/-- **Completeness, end to end.** Once the receiver's window has released as many packets as the sender emitted,
-    the receiving application has exactly the accepted messages, and no partial message is pending. -/
+/-- **Completeness, end to end.** Once the receiver's window has released as many packets as the sender emitted and no
+    `send` is between its fragments, the receiving application has exactly the accepted messages, and no partial message is pending. -/
 theorem C01_system_complete (env : Env) (hcomp : ∀ b, env.compress b = b) (hdec : ∀ b, env.decompress b = .ok b)
     (sub : Nat) (ci : Cipher) (size : Nat) (hsz : 1 ≤ size) (start : Nat) (ops : List SysOp) (s : Sys) (ch : Chan)
     (h0 : Good sub ci size start s ch) (hok : Sys.runOk env sub s ops = true)
-    (hall : (Sys.run env sub s ops).nrel = (Sys.run env sub s ops).net.length) :
+    (hall : (Sys.run env sub s ops).nrel = (Sys.run env sub s ops).net.length)
+    (hidle : (Sys.run env sub s ops).pend = []) :
     ((Sys.run env sub s ops).b.queues[sub]?.getD []) = (Sys.run env sub s ops).accepted ∧
     ((Sys.run env sub s ops).b.eof = false → ((Sys.run env sub s ops).b.fragBufs[sub]?.getD []) = []) :=
-  good_complete (sys_refines env hcomp hdec sub ci size hsz start ops s ch h0 hok).1 hall
+  good_complete (sys_refines env hcomp hdec sub ci size hsz start ops s ch h0 hok).1 hall hidle
 
 open Nx.L1 Nx.Prudp in
 /-- the hypothesis `Good` holds at the start: for every environment, every substream the settings allow and every choice of
@@ -269,8 +271,9 @@ theorem C01_system_initial (env : Env) (sub : Nat) (hsub : sub ≤ env.s.maxSubs
     Good sub (cipherOf a sub) env.s.fragmentSize 1 (Sys.fresh a b) (Chan.init 1) :=
   fresh_good env sub hsub va vb ua ca sa ub cb sb la ra lb rb lpa lta rpa rta lpb ltb rpb rtb st
 
-/-! non-vacuity of the system theorems: a run with a two-fragment message, reordering, duplication and a refused `send`
-    meets `Sys.runOk`, and the receiver ends up with exactly the accepted message (stream transport here, i.e. no RC4, only so
+/-! non-vacuity of the system theorems: a run with a two-fragment message, reordering, duplication, a refused `send`, then a
+    three-fragment message sent fragment by fragment with a keep-alive ping between its fragments (and a second `send` that
+    finds the lock taken) meets `Sys.runOk`, and the receiver ends up with exactly the accepted messages (stream transport here, i.e. no RC4, only so
     that the kernel evaluates the run in a second rather than minutes — RC4's key schedule on kernel arrays is slow; the theorems
     themselves hold for every key, `endpoint_cipher_ok`) -/
 open Nx.L1 Nx.Prudp in
@@ -278,10 +281,12 @@ example :
     let env : Env := { C04.toyEnv with s := { fragmentSize := 2, transport := TRANSPORT_TCP } }
     let a := { Conn.new env (some 1) 1 2 3 ("10.0.0.2", 1) 15 10 ("10.0.0.1", 2) 1 10 with state := STATE_CONNECTED }
     let b := Conn.new env (some 1) 4 5 6 ("10.0.0.1", 2) 1 10 ("10.0.0.2", 1) 15 10
-    let ops := [SysOp.send 0 [1, 2, 3], .deliver 1, .deliver 1, .deliver 0, .send 5 [], .deliver 7]
+    let ops := [SysOp.send 0 [1, 2, 3], .deliver 1, .deliver 1, .deliver 0, .send 5 [], .deliver 7,
+                .begin 6 [4, 5, 6, 7, 8], .frag 6, .ping 7, .send 7 [9], .frag 8, .frag 9, .deliver 5, .deliver 3, .deliver 4, .deliver 2]
     Sys.runOk env 0 (Sys.fresh a b) ops = true ∧
-    (Sys.run env 0 (Sys.fresh a b) ops).b.queues = [[[1, 2, 3]]] ∧
-    (Sys.run env 0 (Sys.fresh a b) ops).accepted = [[1, 2, 3]] ∧
-    (Sys.run env 0 (Sys.fresh a b) ops).net.length = 2 ∧ (Sys.run env 0 (Sys.fresh a b) ops).nrel = 2 := by decide +kernel
+    (Sys.run env 0 (Sys.fresh a b) ops).b.queues = [[[1, 2, 3], [4, 5, 6, 7, 8]]] ∧
+    (Sys.run env 0 (Sys.fresh a b) ops).accepted = [[1, 2, 3], [4, 5, 6, 7, 8]] ∧
+    (Sys.run env 0 (Sys.fresh a b) ops).net.map (·.type) = [TYPE_DATA, TYPE_DATA, TYPE_DATA, TYPE_PING, TYPE_DATA, TYPE_DATA] ∧
+    (Sys.run env 0 (Sys.fresh a b) ops).nrel = 6 ∧ (Sys.run env 0 (Sys.fresh a b) ops).pend = [] := by decide +kernel
 
 end Nx.C01
